@@ -326,6 +326,8 @@ class Interp:
 
     def simp(self, v):
         """resolve top-level Ite whose condition is decided by the current guard"""
+        if isinstance(v, Ite) and isinstance(v.b, Ite):
+            v = self.simp_chain(v)
         n = 0
         while isinstance(v, Ite) and n < 50:
             g = self.cur_guard_list()
@@ -343,6 +345,22 @@ class Interp:
                     break
             n += 1
         return v
+
+    def simp_chain(self, v, depth=0):
+        """ite(and(G, c), A, ite(and(G, not c), B, U)) under a guard that contains G is ite(c, A, B): conjuncts of the
+        conditions that the current path already guarantees are dropped along the else-chain"""
+        if not isinstance(v, Ite) or depth > 12:
+            return v
+        g = set(self.cur_guard_list())
+        parts = list(v.c.args) if isinstance(v.c, Op) and v.c.op == "and" else [v.c]
+        if any(not_(p) in g for p in parts):
+            return self.simp_chain(v.b, depth + 1)
+        rest = [p for p in parts if p not in g]
+        if not rest:
+            return v.a
+        if len(rest) == len(parts) and not isinstance(v.b, Ite):
+            return v
+        return ite(and_(*rest), v.a, self.simp_chain(v.b, depth + 1))
 
     def truth(self, v):
         v = self.simp(v)
@@ -927,6 +945,9 @@ class _ExprMixin:
                 return Op("getitem", base, idx)
         if isinstance(base, Undef) or (isinstance(base, Const) and base.v is None):
             return Undef()
+        if is_const(idx, str) and isinstance(base, Op):
+            # key look-up in a mapping the analysis does not know (e.g. the result of an opaque decoder): may raise KeyError
+            self.event("subscript", (base, idx), node)
         return Op("getitem", base, idx)
 
     def is_dispatch_table(self, o):
@@ -1160,8 +1181,12 @@ class _CallMixin:
 
     def list_method(self, ref, o, name, args, kwargs, node):
         g = self.rel_guard(o.born)
-        if name in ("append", "extend", "sort", "reverse", "insert", "pop", "remove", "clear"):
+        if name in ("append", "extend", "sort", "reverse", "insert", "pop", "remove", "clear", "add", "update", "discard"):
             self.note_mutation(ref, o, "list." + name, node)
+        if name == "add" and o.typ == "set":
+            name = "append"
+        if name == "update" and o.typ == "set":
+            name = "extend"
         if name == "append":
             lc = self.loop_ctx[-1] if self.loop_ctx else None
             if lc is not None and not self.loop_born_inside(o, lc):
@@ -2428,7 +2453,14 @@ class _ExtMixin:
         return Op("tuple_of", v)
 
     def x_set(self, a, k, n):
-        return Op("set", *a)
+        """sets are modelled as tracked collections (element order / duplicates are not observable through the
+        operations modelled: add, membership, truth, iteration over constants)"""
+        if not a:
+            return self.mk_list([], "set")
+        els = self.concrete_iter(self.simp(a[0]))
+        if els is not None and len(els) <= UNROLL_MAX:
+            return self.mk_list(els, "set")
+        return self.alloc(ListObj(self.born_now(), [("v", Op("splat", a[0]), TRUE)], "set"))
 
     def x_dict(self, a, k, n, typ=None):
         d = DictObj(self.born_now(), typ) if typ else DictObj(self.born_now())
